@@ -9,13 +9,13 @@ open Cstruct Cstruct.Core.Lemmas
 
 /-- the simulation at the start of a structure -/
 theorem sim_top (cfg : Cfg) (al : Bool) (fs : Fields) (plan : Plan) (data : Bytes) (pos : Nat)
-    (hstart : AlignedStart cfg al fs pos) (hsub : SubSizes cfg al fs data pos) (sz : Option Nat) (salign : Nat)
+    (sz : Option Nat) (salign : Nat)
     (offs : List (Option Nat)) (hl : structLayout cfg al fs = .ok (sz, salign, offs))
     (hok : planOKAux cfg al salign plan fs offs { spos := some 0, lastAlign := none, unit := none, dirty := false } = true) :
     Sim (exec cfg salign pos data plan fs { pos := pos, bb := BitBuf.empty, ctx := [] })
       (finR al salign (readFields cfg al fs offs pos BitBuf.empty [] data pos)) := by
-  refine sim_plan cfg al salign pos data (fun ha => hstart ha sz salign offs hl) plan fs offs _
-    { pos := pos, bb := BitBuf.empty, ctx := [] } pos BitBuf.empty hok ?_ (hsub sz salign offs hl)
+  refine sim_plan cfg al salign pos data plan fs offs _
+    { pos := pos, bb := BitBuf.empty, ctx := [] } pos BitBuf.empty hok ?_ (subSizesAux_all cfg data pos fs offs)
   refine ⟨?_, Or.inr rfl, (by intro _ a ha; cases ha), rfl, ?_⟩
   · intro k hk; cases hk; rfl
   · show (if false = true then _ else _)
@@ -23,7 +23,7 @@ theorem sim_top (cfg : Cfg) (al : Bool) (fs : Fields) (plan : Plan) (data : Byte
     exact ⟨rfl, Or.inl rfl⟩
 
 theorem compiled_refines (cfg : Cfg) (al : Bool) (fs : Fields) (plan : Plan) (data : Bytes) (pos : Nat)
-    (hok : planOK cfg al fs plan = true) (hstart : AlignedStart cfg al fs pos) (hsub : SubSizes cfg al fs data pos)
+    (hok : planOK cfg al fs plan = true)
     (v : Val) (szs : List (String × Nat)) (p : Nat)
     (hc : readCompiled cfg al fs plan data pos = .ok (v, szs, p)) :
     ∃ szs', readStructWithSizes cfg al fs data pos = .ok (v, szs', p) ∧
@@ -37,7 +37,7 @@ theorem compiled_refines (cfg : Cfg) (al : Bool) (fs : Fields) (plan : Plan) (da
     obtain ⟨sz, salign, offs⟩ := r
     rw [hl] at hok hc
     simp only at hok hc ⊢
-    have hsim := sim_top cfg al fs plan data pos hstart hsub sz salign offs hl hok
+    have hsim := sim_top cfg al fs plan data pos sz salign offs hl hok
     cases hx : exec cfg salign pos data plan fs { pos := pos, bb := BitBuf.empty, ctx := [] } with
     | error e => rw [hx] at hc; cases hc
     | ok x =>
@@ -56,7 +56,7 @@ theorem compiled_refines (cfg : Cfg) (al : Bool) (fs : Fields) (plan : Plan) (da
           exact ⟨s', by rw [h2], h3⟩
 
 theorem interp_ok_compiled (cfg : Cfg) (al : Bool) (fs : Fields) (plan : Plan) (data : Bytes) (pos : Nat)
-    (hok : planOK cfg al fs plan = true) (hstart : AlignedStart cfg al fs pos) (hsub : SubSizes cfg al fs data pos)
+    (hok : planOK cfg al fs plan = true)
     (v : Val) (szs : List (String × Nat)) (p : Nat)
     (hi : readStructWithSizes cfg al fs data pos = .ok (v, szs, p)) :
     (∃ szs', readCompiled cfg al fs plan data pos = .ok (v, szs', p) ∧
@@ -71,7 +71,7 @@ theorem interp_ok_compiled (cfg : Cfg) (al : Bool) (fs : Fields) (plan : Plan) (
     obtain ⟨sz, salign, offs⟩ := r
     rw [hl] at hok hi
     simp only at hok hi ⊢
-    have hsim := sim_top cfg al fs plan data pos hstart hsub sz salign offs hl hok
+    have hsim := sim_top cfg al fs plan data pos sz salign offs hl hok
     cases hy : readFields cfg al fs offs pos BitBuf.empty [] data pos with
     | error e => rw [hy] at hi; cases hi
     | ok y =>
@@ -156,48 +156,6 @@ theorem sample_runs : readCompiled samplecfg true sampleFields samplePlan sample
   rw [readCompiled, sample_layout]
   simp [samplePlan, sampleFields, exec, skipVoids, isVoid, bitsVia, BitBuf.empty, Scalar.size, sample_fmt1, sample_fmt2,
     s_rs0, unitInt, s_end, s_take1, s_take2, padNat_one, s_re1, s_re2, s_es1, s_es2, s_sub, s_pad2, exec.Vals.append]
-
-
-theorem sample_aligned : AlignedStart samplecfg true sampleFields 0 := by
-  intro _ sz sa offs _
-  exact Nat.dvd_zero sa
-
-theorem read_sc_end (cfg : Cfg) (s : Scalar) (a : Nat) (ctx : Ctx) (data : Bytes) (q : Nat) (v : Val) (p n : Nat)
-    (h : read cfg (.sc s a) ctx data q = .ok (v, p)) (hs : (Ty.sc s a).size cfg = some n) : p = q + n := by
-  rw [read_sc] at h
-  exact (readScalar_pos cfg s data q v p h).2 n hs
-
-theorem sample_subsizes : SubSizes samplecfg true sampleFields sampleData 0 := by
-  intro sz sa offs hl
-  rw [sample_layout] at hl
-  cases hl
-  refine ⟨(by intro h; cases h), (by intro h; cases h), ?_, ?_, ?_, ?_, ?_, trivial⟩
-  · intro _ o n ho hn ctx v p h
-    exact read_sc_end _ _ _ _ _ _ _ _ _ h hn
-  · intro _ o n ho hn ctx v p h
-    cases ho
-    have h8 : n = 8 := by
-      have : (Ty.struct true (.cons "x" false (.sc (.pint 1 false) 1) none
-          (.cons "y" false (.sc (.pint 4 false) 4) none .nil))).size samplecfg = some 8 := by decide +kernel
-      rw [this] at hn; cases hn; rfl
-    subst h8
-    have := s_sub ctx
-    simp only [Nat.zero_add] at h
-    rw [this] at h
-    cases h
-    rfl
-  · intro _ o n ho hn ctx v p h
-    cases ho
-    rw [read_arr_fixed, readArray.eq_1] at h
-    simp only [readScalarArray] at h
-    obtain ⟨k, hk, hp⟩ := readScalarArray_pos samplecfg (.pint 2 false) 2 sampleData (0 + 16) v p (by simp only [readScalarArray]; rw [h])
-    cases hk
-    simp only [Ty.size, Scalar.size, Option.some.injEq] at hn
-    omega
-  · intro _ o n ho hn ctx v p h
-    exact read_sc_end _ _ _ _ _ _ _ _ _ h hn
-  · intro _ o n ho hn ctx v p h
-    exact read_sc_end _ _ _ _ _ _ _ _ _ h hn
 
 
 theorem sample_inner_layout : Fields.layout samplecfg true
